@@ -19,24 +19,8 @@ use flussab::{Parsed, ResultExt};
 use std::cell::Cell;
 use Parsed::{Fallthrough, Res};
 
-#[derive(Clone, Copy, Debug, PartialEq, Eq)]
-struct T(u32);
-#[derive(Clone, Copy, Debug, PartialEq, Eq)]
-struct U(u32);
-#[derive(Clone, Copy, Debug, PartialEq, Eq)]
-struct E(u32);
-#[derive(Clone, Copy, Debug, PartialEq, Eq)]
-struct E2(u32);
-
 thread_local! {
     static FROM_CALLS: Cell<u32> = const { Cell::new(0) };
-}
-
-impl From<E> for E2 {
-    fn from(e: E) -> E2 {
-        FROM_CALLS.with(|c| c.set(c.get() + 1));
-        E2(e.0 + 1000)
-    }
 }
 
 #[derive(Clone, Copy, Debug, PartialEq, Eq)]
@@ -44,17 +28,6 @@ enum Recv {
     Fall,
     Ok,
     Err,
-}
-
-const T1: T = T(11);
-const E1: E = E(21);
-
-fn recv(r: Recv) -> Parsed<T, E> {
-    match r {
-        Recv::Fall => Fallthrough,
-        Recv::Ok => Res(Ok(T1)),
-        Recv::Err => Res(Err(E1)),
-    }
 }
 
 fn show<A: std::fmt::Debug, B: std::fmt::Debug>(p: &Parsed<A, B>) -> String {
@@ -89,471 +62,589 @@ fn obs(result: String, calls: u32, arg: String) -> Obs {
     Obs { result, calls, arg }
 }
 
-fn cells() -> Vec<Cell15> {
-    let mut out = vec![];
-    let recvs = [Recv::Fall, Recv::Ok, Recv::Err];
-    let mut push = |name: String, observed: Obs, expected: Obs| {
-        out.push(Cell15 {
-            name,
-            observed,
-            expected,
-        })
-    };
+/// What rides along inside the value / error types of one instantiation ("shape"): generic code can
+/// only differ between instantiations through type intrinsics (size, alignment, drop glue, niches).
+trait Pad: Clone + PartialEq {
+    fn mk(role: u64) -> Self;
+    fn intact(&self, role: u64) -> bool {
+        *self == Self::mk(role)
+    }
+}
+impl Pad for () {
+    fn mk(_: u64) {}
+}
+impl<const N: usize> Pad for [u64; N] {
+    fn mk(role: u64) -> Self {
+        let mut a = [0u64; N];
+        for (i, x) in a.iter_mut().enumerate() {
+            *x = role.wrapping_mul(0x9e37_79b9_7f4a_7c15).wrapping_add(i as u64);
+        }
+        a
+    }
+}
+impl Pad for String {
+    fn mk(role: u64) -> Self {
+        format!("payload of role {} that lives on the heap and has drop glue", role)
+    }
+}
+impl Pad for Box<u8> {
+    fn mk(role: u64) -> Self {
+        Box::new(role as u8)
+    }
+}
+impl Pad for (u8, u16) {
+    fn mk(role: u64) -> Self {
+        (role as u8, 0xbeef)
+    }
+}
 
-    for &r in &recvs {
-        // ---- err_into
-        {
-            FROM_CALLS.with(|c| c.set(0));
-            let got: Parsed<T, E2> = recv(r).err_into();
-            let calls = FROM_CALLS.with(|c| c.get());
-            let exp = match r {
-                Recv::Fall => obs("Fallthrough".into(), 0, "".into()),
-                Recv::Ok => obs("Res(Ok(T(11)))".into(), 0, "".into()),
-                Recv::Err => obs("Res(Err(E2(1021)))".into(), 1, "".into()),
-            };
-            push(
-                format!("Parsed::err_into/{:?}", r),
-                obs(show(&got), calls, "".into()),
-                exp,
-            );
-        }
-        // ---- or_give_up
-        {
-            let calls = Cell::new(0);
-            let got = recv(r).or_give_up(|| {
-                calls.set(calls.get() + 1);
-                E(99)
-            });
-            let exp = match r {
-                Recv::Fall => obs("Err(E(99))".into(), 1, "".into()),
-                Recv::Ok => obs("Ok(T(11))".into(), 0, "".into()),
-                Recv::Err => obs("Err(E(21))".into(), 0, "".into()),
-            };
-            push(
-                format!("or_give_up/{:?}", r),
-                obs(show_r(&got), calls.get(), "".into()),
-                exp,
-            );
-        }
-        // ---- optional
-        {
-            let got = recv(r).optional();
-            let exp = match r {
-                Recv::Fall => "Ok(None)",
-                Recv::Ok => "Ok(Some(T(11)))",
-                Recv::Err => "Err(E(21))",
-            };
-            push(
-                format!("optional/{:?}", r),
-                obs(show_r(&got), 0, "".into()),
-                obs(exp.into(), 0, "".into()),
-            );
-        }
-        // ---- matches
-        {
-            let got = recv(r).matches();
-            let exp = match r {
-                Recv::Fall => "Ok(false)",
-                Recv::Ok => "Ok(true)",
-                Recv::Err => "Err(E(21))",
-            };
-            push(
-                format!("matches/{:?}", r),
-                obs(show_r(&got), 0, "".into()),
-                obs(exp.into(), 0, "".into()),
-            );
-        }
-        // ---- or_parse: alternative returns each of the three cases
-        for &alt in &recvs {
-            let calls = Cell::new(0);
-            let altv = |a: Recv| -> Parsed<T, E> {
-                match a {
+macro_rules! shape {
+    ($m:ident, $label:expr, $P:ty) => {
+        mod $m {
+            use super::*;
+            type P = $P;
+            const LABEL: &str = $label;
+
+            macro_rules! tagged {
+                ($name:ident, $role:expr) => {
+                    #[derive(Clone, PartialEq)]
+                    pub(super) struct $name(pub u32, pub P);
+                    impl $name {
+                        pub(super) fn mk(tag: u32) -> $name {
+                            $name(tag, <P as Pad>::mk($role))
+                        }
+                    }
+                    impl std::fmt::Debug for $name {
+                        fn fmt(&self, f: &mut std::fmt::Formatter<'_>) -> std::fmt::Result {
+                            if self.1.intact($role) {
+                                write!(f, "{}({})", stringify!($name), self.0)
+                            } else {
+                                write!(f, "{}({})!payload-corrupted", stringify!($name), self.0)
+                            }
+                        }
+                    }
+                };
+            }
+            tagged!(T, 1);
+            tagged!(U, 2);
+            tagged!(E, 3);
+            tagged!(E2, 4);
+
+            impl From<E> for E2 {
+                fn from(e: E) -> E2 {
+                    FROM_CALLS.with(|c| c.set(c.get() + 1));
+                    E2::mk(e.0 + 1000)
+                }
+            }
+
+            fn recv(r: Recv) -> Parsed<T, E> {
+                match r {
                     Recv::Fall => Fallthrough,
-                    Recv::Ok => Res(Ok(T(12))),
-                    Recv::Err => Res(Err(E(22))),
+                    Recv::Ok => Res(Ok(T::mk(11))),
+                    Recv::Err => Res(Err(E::mk(21))),
                 }
-            };
-            let got = recv(r).or_parse(|| {
-                calls.set(calls.get() + 1);
-                altv(alt)
-            });
-            let exp = match r {
-                Recv::Fall => obs(show(&altv(alt)), 1, "".into()),
-                Recv::Ok => obs("Res(Ok(T(11)))".into(), 0, "".into()),
-                Recv::Err => obs("Res(Err(E(21)))".into(), 0, "".into()),
-            };
-            push(
-                format!("or_parse/{:?}/alt={:?}", r, alt),
-                obs(show(&got), calls.get(), "".into()),
-                exp,
-            );
-        }
-        // ---- or_always_parse
-        for &alt_ok in &[true, false] {
-            let calls = Cell::new(0);
-            let altv = |ok: bool| -> Result<T, E> {
-                if ok {
-                    Ok(T(12))
-                } else {
-                    Err(E(22))
-                }
-            };
-            let got = recv(r).or_always_parse(|| {
-                calls.set(calls.get() + 1);
-                altv(alt_ok)
-            });
-            let exp = match r {
-                Recv::Fall => obs(show_r(&altv(alt_ok)), 1, "".into()),
-                Recv::Ok => obs("Ok(T(11))".into(), 0, "".into()),
-                Recv::Err => obs("Err(E(21))".into(), 0, "".into()),
-            };
-            push(
-                format!("or_always_parse/{:?}/alt_ok={}", r, alt_ok),
-                obs(show_r(&got), calls.get(), "".into()),
-                exp,
-            );
-        }
-        // ---- and_then
-        for &cont_ok in &[true, false] {
-            let calls = Cell::new(0);
-            let arg = Cell::new(None);
-            let got: Parsed<U, E> = recv(r).and_then(|t| {
-                calls.set(calls.get() + 1);
-                arg.set(Some(t));
-                if cont_ok {
-                    Ok(U(t.0 + 100))
-                } else {
-                    Err(E(23))
-                }
-            });
-            let exp = match r {
-                Recv::Fall => obs("Fallthrough".into(), 0, "None".into()),
-                Recv::Ok => obs(
-                    if cont_ok {
-                        "Res(Ok(U(111)))".into()
-                    } else {
-                        "Res(Err(E(23)))".into()
-                    },
-                    1,
-                    "Some(T(11))".into(),
-                ),
-                Recv::Err => obs("Res(Err(E(21)))".into(), 0, "None".into()),
-            };
-            push(
-                format!("and_then/{:?}/cont_ok={}", r, cont_ok),
-                obs(show(&got), calls.get(), format!("{:?}", arg.get())),
-                exp,
-            );
-        }
-        // ---- and_also: continuation may mutate and may fail
-        for &cont_ok in &[true, false] {
-            for &mutate in &[true, false] {
-                let calls = Cell::new(0);
-                let arg = Cell::new(None);
-                let got = recv(r).and_also(|t| {
-                    calls.set(calls.get() + 1);
-                    arg.set(Some(*t));
-                    if mutate {
-                        t.0 += 500;
-                    }
-                    if cont_ok {
-                        Ok(())
-                    } else {
-                        Err(E(24))
-                    }
-                });
-                let exp = match r {
-                    Recv::Fall => obs("Fallthrough".into(), 0, "None".into()),
-                    Recv::Ok => obs(
-                        match (cont_ok, mutate) {
-                            (true, true) => "Res(Ok(T(511)))".into(),
-                            (true, false) => "Res(Ok(T(11)))".into(),
-                            (false, _) => "Res(Err(E(24)))".into(),
-                        },
-                        1,
-                        "Some(T(11))".into(),
-                    ),
-                    Recv::Err => obs("Res(Err(E(21)))".into(), 0, "None".into()),
-                };
-                push(
-                    format!(
-                        "and_also/{:?}/cont_ok={}/mutate={}",
-                        r, cont_ok, mutate
-                    ),
-                    obs(show(&got), calls.get(), format!("{:?}", arg.get())),
-                    exp,
-                );
             }
-        }
-        // ---- and_do
-        for &mutate in &[true, false] {
-            let calls = Cell::new(0);
-            let arg = Cell::new(None);
-            let got = recv(r).and_do(|t| {
-                calls.set(calls.get() + 1);
-                arg.set(Some(*t));
-                if mutate {
-                    t.0 += 500;
-                }
-            });
-            let exp = match r {
-                Recv::Fall => obs("Fallthrough".into(), 0, "None".into()),
-                Recv::Ok => obs(
-                    if mutate {
-                        "Res(Ok(T(511)))".into()
-                    } else {
-                        "Res(Ok(T(11)))".into()
-                    },
-                    1,
-                    "Some(T(11))".into(),
-                ),
-                Recv::Err => obs("Res(Err(E(21)))".into(), 0, "None".into()),
-            };
-            push(
-                format!("and_do/{:?}/mutate={}", r, mutate),
-                obs(show(&got), calls.get(), format!("{:?}", arg.get())),
-                exp,
-            );
-        }
-        // ---- map
-        {
-            let calls = Cell::new(0);
-            let arg = Cell::new(None);
-            let got: Parsed<U, E> = recv(r).map(|t| {
-                calls.set(calls.get() + 1);
-                arg.set(Some(t));
-                U(t.0 + 200)
-            });
-            let exp = match r {
-                Recv::Fall => obs("Fallthrough".into(), 0, "None".into()),
-                Recv::Ok => obs("Res(Ok(U(211)))".into(), 1, "Some(T(11))".into()),
-                Recv::Err => obs("Res(Err(E(21)))".into(), 0, "None".into()),
-            };
-            push(
-                format!("map/{:?}", r),
-                obs(show(&got), calls.get(), format!("{:?}", arg.get())),
-                exp,
-            );
-        }
-        // ---- map_err
-        {
-            let calls = Cell::new(0);
-            let arg = Cell::new(None);
-            let got: Parsed<T, E2> = recv(r).map_err(|e| {
-                calls.set(calls.get() + 1);
-                arg.set(Some(e));
-                E2(e.0 + 300)
-            });
-            let exp = match r {
-                Recv::Fall => obs("Fallthrough".into(), 0, "None".into()),
-                Recv::Ok => obs("Res(Ok(T(11)))".into(), 0, "None".into()),
-                Recv::Err => obs("Res(Err(E2(321)))".into(), 1, "Some(E(21))".into()),
-            };
-            push(
-                format!("map_err/{:?}", r),
-                obs(show(&got), calls.get(), format!("{:?}", arg.get())),
-                exp,
-            );
-        }
-    }
 
-    // ---- the same invocation rules with a zero-sized value type (what delimiter parsers return): only the
-    // closure's invocation count is observable there
-    for &r in &recvs {
-        let zrecv = |r: Recv| -> Parsed<(), E> {
-            match r {
-                Recv::Fall => Fallthrough,
-                Recv::Ok => Res(Ok(())),
-                Recv::Err => Res(Err(E1)),
+            pub(super) fn sizes() -> (usize, usize) {
+                (std::mem::size_of::<Parsed<T, E>>(), std::mem::size_of::<Parsed<(), E>>())
             }
-        };
-        let want_calls = if r == Recv::Ok { 1 } else { 0 };
-        let want = |r: Recv| match r {
-            Recv::Fall => "Fallthrough".to_string(),
-            Recv::Ok => "Res(Ok(()))".to_string(),
-            Recv::Err => "Res(Err(E(21)))".to_string(),
-        };
-        {
-            let calls = Cell::new(0);
-            let got = zrecv(r).and_do(|_| calls.set(calls.get() + 1));
-            push(format!("zst:and_do/{:?}", r), obs(show(&got), calls.get(), "".into()), obs(want(r), want_calls, "".into()));
-        }
-        {
-            let calls = Cell::new(0);
-            let got = zrecv(r).and_also(|_| {
-                calls.set(calls.get() + 1);
-                Ok(())
-            });
-            push(format!("zst:and_also/{:?}", r), obs(show(&got), calls.get(), "".into()), obs(want(r), want_calls, "".into()));
-        }
-        {
-            let calls = Cell::new(0);
-            let got: Parsed<(), E> = zrecv(r).and_then(|_| {
-                calls.set(calls.get() + 1);
-                Ok(())
-            });
-            push(format!("zst:and_then/{:?}", r), obs(show(&got), calls.get(), "".into()), obs(want(r), want_calls, "".into()));
-        }
-        {
-            let calls = Cell::new(0);
-            let got: Parsed<(), E> = zrecv(r).map(|_| {
-                calls.set(calls.get() + 1);
-            });
-            push(format!("zst:map/{:?}", r), obs(show(&got), calls.get(), "".into()), obs(want(r), want_calls, "".into()));
-        }
-        {
-            let calls = Cell::new(0);
-            let got = zrecv(r).or_parse(|| {
-                calls.set(calls.get() + 1);
-                Res(Ok(()))
-            });
-            let exp = if r == Recv::Fall { "Res(Ok(()))".to_string() } else { want(r) };
-            push(
-                format!("zst:or_parse/{:?}", r),
-                obs(show(&got), calls.get(), "".into()),
-                obs(exp, if r == Recv::Fall { 1 } else { 0 }, "".into()),
-            );
-        }
-    }
-    for &ok in &[true, false] {
-        let zres = |ok: bool| -> Result<(), E> {
-            if ok {
-                Ok(())
-            } else {
-                Err(E1)
-            }
-        };
-        let want = if ok { "Ok(())" } else { "Err(E(21))" };
-        {
-            let calls = Cell::new(0);
-            let got = ResultExt::and_do(zres(ok), |_: &mut ()| calls.set(calls.get() + 1));
-            push(
-                format!("zst:ResultExt::and_do/ok={}", ok),
-                obs(show_r(&got), calls.get(), "".into()),
-                obs(want.into(), ok as u32, "".into()),
-            );
-        }
-        {
-            let calls = Cell::new(0);
-            let got = ResultExt::and_also(zres(ok), |_: &mut ()| {
-                calls.set(calls.get() + 1);
-                Ok(())
-            });
-            push(
-                format!("zst:ResultExt::and_also/ok={}", ok),
-                obs(show_r(&got), calls.get(), "".into()),
-                obs(want.into(), ok as u32, "".into()),
-            );
-        }
-    }
 
-    // ---- From<Result> and ResultExt on {Ok, Err}
-    for &ok in &[true, false] {
-        let res = |ok: bool| -> Result<T, E> {
-            if ok {
-                Ok(T1)
-            } else {
-                Err(E1)
-            }
-        };
-        {
-            let got: Parsed<T, E> = res(ok).into();
-            let exp = if ok {
-                "Res(Ok(T(11)))"
-            } else {
-                "Res(Err(E(21)))"
-            };
-            push(
-                format!("From<Result>/ok={}", ok),
-                obs(show(&got), 0, "".into()),
-                obs(exp.into(), 0, "".into()),
-            );
-        }
-        {
-            FROM_CALLS.with(|c| c.set(0));
-            let got: Result<T, E2> = ResultExt::err_into(res(ok));
-            let calls = FROM_CALLS.with(|c| c.get());
-            let exp = if ok {
-                obs("Ok(T(11))".into(), 0, "".into())
-            } else {
-                obs("Err(E2(1021))".into(), 1, "".into())
-            };
-            push(
-                format!("ResultExt::err_into/ok={}", ok),
-                obs(show_r(&got), calls, "".into()),
-                exp,
-            );
-        }
-        for &cont_ok in &[true, false] {
-            for &mutate in &[true, false] {
-                let calls = Cell::new(0);
-                let arg = Cell::new(None);
-                let got = ResultExt::and_also(res(ok), |t: &mut T| {
-                    calls.set(calls.get() + 1);
-                    arg.set(Some(*t));
-                    if mutate {
-                        t.0 += 500;
-                    }
-                    if cont_ok {
-                        Ok(())
-                    } else {
-                        Err(E(24))
-                    }
-                });
-                let exp = if ok {
-                    obs(
-                        match (cont_ok, mutate) {
-                            (true, true) => "Ok(T(511))".into(),
-                            (true, false) => "Ok(T(11))".into(),
-                            (false, _) => "Err(E(24))".into(),
-                        },
-                        1,
-                        "Some(T(11))".into(),
-                    )
-                } else {
-                    obs("Err(E(21))".into(), 0, "None".into())
+            pub(super) fn cells() -> Vec<Cell15> {
+                let mut out = vec![];
+                let recvs = [Recv::Fall, Recv::Ok, Recv::Err];
+                let mut push = |name: String, observed: Obs, expected: Obs| {
+                    out.push(Cell15 {
+                        name: format!("{}{}", LABEL, name),
+                        observed,
+                        expected,
+                    })
                 };
-                push(
-                    format!(
-                        "ResultExt::and_also/ok={}/cont_ok={}/mutate={}",
-                        ok, cont_ok, mutate
-                    ),
-                    obs(show_r(&got), calls.get(), format!("{:?}", arg.get())),
-                    exp,
-                );
+
+                for &r in &recvs {
+                    // ---- err_into
+                    {
+                        FROM_CALLS.with(|c| c.set(0));
+                        let got: Parsed<T, E2> = recv(r).err_into();
+                        let calls = FROM_CALLS.with(|c| c.get());
+                        let exp = match r {
+                            Recv::Fall => obs("Fallthrough".into(), 0, "".into()),
+                            Recv::Ok => obs("Res(Ok(T(11)))".into(), 0, "".into()),
+                            Recv::Err => obs("Res(Err(E2(1021)))".into(), 1, "".into()),
+                        };
+                        push(
+                            format!("Parsed::err_into/{:?}", r),
+                            obs(show(&got), calls, "".into()),
+                            exp,
+                        );
+                    }
+                    // ---- or_give_up
+                    {
+                        let calls = Cell::new(0);
+                        let got = recv(r).or_give_up(|| {
+                            calls.set(calls.get() + 1);
+                            E::mk(99)
+                        });
+                        let exp = match r {
+                            Recv::Fall => obs("Err(E(99))".into(), 1, "".into()),
+                            Recv::Ok => obs("Ok(T(11))".into(), 0, "".into()),
+                            Recv::Err => obs("Err(E(21))".into(), 0, "".into()),
+                        };
+                        push(
+                            format!("or_give_up/{:?}", r),
+                            obs(show_r(&got), calls.get(), "".into()),
+                            exp,
+                        );
+                    }
+                    // ---- optional
+                    {
+                        let got = recv(r).optional();
+                        let exp = match r {
+                            Recv::Fall => "Ok(None)",
+                            Recv::Ok => "Ok(Some(T(11)))",
+                            Recv::Err => "Err(E(21))",
+                        };
+                        push(
+                            format!("optional/{:?}", r),
+                            obs(show_r(&got), 0, "".into()),
+                            obs(exp.into(), 0, "".into()),
+                        );
+                    }
+                    // ---- matches
+                    {
+                        let got = recv(r).matches();
+                        let exp = match r {
+                            Recv::Fall => "Ok(false)",
+                            Recv::Ok => "Ok(true)",
+                            Recv::Err => "Err(E(21))",
+                        };
+                        push(
+                            format!("matches/{:?}", r),
+                            obs(show_r(&got), 0, "".into()),
+                            obs(exp.into(), 0, "".into()),
+                        );
+                    }
+                    // ---- or_parse: alternative returns each of the three cases
+                    for &alt in &recvs {
+                        let calls = Cell::new(0);
+                        let altv = |a: Recv| -> Parsed<T, E> {
+                            match a {
+                                Recv::Fall => Fallthrough,
+                                Recv::Ok => Res(Ok(T::mk(12))),
+                                Recv::Err => Res(Err(E::mk(22))),
+                            }
+                        };
+                        let got = recv(r).or_parse(|| {
+                            calls.set(calls.get() + 1);
+                            altv(alt)
+                        });
+                        let exp = match r {
+                            Recv::Fall => obs(show(&altv(alt)), 1, "".into()),
+                            Recv::Ok => obs("Res(Ok(T(11)))".into(), 0, "".into()),
+                            Recv::Err => obs("Res(Err(E(21)))".into(), 0, "".into()),
+                        };
+                        push(
+                            format!("or_parse/{:?}/alt={:?}", r, alt),
+                            obs(show(&got), calls.get(), "".into()),
+                            exp,
+                        );
+                    }
+                    // ---- or_always_parse
+                    for &alt_ok in &[true, false] {
+                        let calls = Cell::new(0);
+                        let altv = |ok: bool| -> Result<T, E> {
+                            if ok {
+                                Ok(T::mk(12))
+                            } else {
+                                Err(E::mk(22))
+                            }
+                        };
+                        let got = recv(r).or_always_parse(|| {
+                            calls.set(calls.get() + 1);
+                            altv(alt_ok)
+                        });
+                        let exp = match r {
+                            Recv::Fall => obs(show_r(&altv(alt_ok)), 1, "".into()),
+                            Recv::Ok => obs("Ok(T(11))".into(), 0, "".into()),
+                            Recv::Err => obs("Err(E(21))".into(), 0, "".into()),
+                        };
+                        push(
+                            format!("or_always_parse/{:?}/alt_ok={}", r, alt_ok),
+                            obs(show_r(&got), calls.get(), "".into()),
+                            exp,
+                        );
+                    }
+                    // ---- and_then
+                    for &cont_ok in &[true, false] {
+                        let calls = Cell::new(0);
+                        let arg = Cell::new(None);
+                        let got: Parsed<U, E> = recv(r).and_then(|t| {
+                            calls.set(calls.get() + 1);
+                            arg.set(Some(t.clone()));
+                            if cont_ok {
+                                Ok(U::mk(t.0 + 100))
+                            } else {
+                                Err(E::mk(23))
+                            }
+                        });
+                        let exp = match r {
+                            Recv::Fall => obs("Fallthrough".into(), 0, "None".into()),
+                            Recv::Ok => obs(
+                                if cont_ok {
+                                    "Res(Ok(U(111)))".into()
+                                } else {
+                                    "Res(Err(E(23)))".into()
+                                },
+                                1,
+                                "Some(T(11))".into(),
+                            ),
+                            Recv::Err => obs("Res(Err(E(21)))".into(), 0, "None".into()),
+                        };
+                        push(
+                            format!("and_then/{:?}/cont_ok={}", r, cont_ok),
+                            obs(show(&got), calls.get(), format!("{:?}", arg.take())),
+                            exp,
+                        );
+                    }
+                    // ---- and_also: continuation may mutate and may fail
+                    for &cont_ok in &[true, false] {
+                        for &mutate in &[true, false] {
+                            let calls = Cell::new(0);
+                            let arg = Cell::new(None);
+                            let got = recv(r).and_also(|t| {
+                                calls.set(calls.get() + 1);
+                                arg.set(Some(t.clone()));
+                                if mutate {
+                                    t.0 += 500;
+                                }
+                                if cont_ok {
+                                    Ok(())
+                                } else {
+                                    Err(E::mk(24))
+                                }
+                            });
+                            let exp = match r {
+                                Recv::Fall => obs("Fallthrough".into(), 0, "None".into()),
+                                Recv::Ok => obs(
+                                    match (cont_ok, mutate) {
+                                        (true, true) => "Res(Ok(T(511)))".into(),
+                                        (true, false) => "Res(Ok(T(11)))".into(),
+                                        (false, _) => "Res(Err(E(24)))".into(),
+                                    },
+                                    1,
+                                    "Some(T(11))".into(),
+                                ),
+                                Recv::Err => obs("Res(Err(E(21)))".into(), 0, "None".into()),
+                            };
+                            push(
+                                format!(
+                                    "and_also/{:?}/cont_ok={}/mutate={}",
+                                    r, cont_ok, mutate
+                                ),
+                                obs(show(&got), calls.get(), format!("{:?}", arg.take())),
+                                exp,
+                            );
+                        }
+                    }
+                    // ---- and_do
+                    for &mutate in &[true, false] {
+                        let calls = Cell::new(0);
+                        let arg = Cell::new(None);
+                        let got = recv(r).and_do(|t| {
+                            calls.set(calls.get() + 1);
+                            arg.set(Some(t.clone()));
+                            if mutate {
+                                t.0 += 500;
+                            }
+                        });
+                        let exp = match r {
+                            Recv::Fall => obs("Fallthrough".into(), 0, "None".into()),
+                            Recv::Ok => obs(
+                                if mutate {
+                                    "Res(Ok(T(511)))".into()
+                                } else {
+                                    "Res(Ok(T(11)))".into()
+                                },
+                                1,
+                                "Some(T(11))".into(),
+                            ),
+                            Recv::Err => obs("Res(Err(E(21)))".into(), 0, "None".into()),
+                        };
+                        push(
+                            format!("and_do/{:?}/mutate={}", r, mutate),
+                            obs(show(&got), calls.get(), format!("{:?}", arg.take())),
+                            exp,
+                        );
+                    }
+                    // ---- map
+                    {
+                        let calls = Cell::new(0);
+                        let arg = Cell::new(None);
+                        let got: Parsed<U, E> = recv(r).map(|t| {
+                            calls.set(calls.get() + 1);
+                            arg.set(Some(t.clone()));
+                            U::mk(t.0 + 200)
+                        });
+                        let exp = match r {
+                            Recv::Fall => obs("Fallthrough".into(), 0, "None".into()),
+                            Recv::Ok => obs("Res(Ok(U(211)))".into(), 1, "Some(T(11))".into()),
+                            Recv::Err => obs("Res(Err(E(21)))".into(), 0, "None".into()),
+                        };
+                        push(
+                            format!("map/{:?}", r),
+                            obs(show(&got), calls.get(), format!("{:?}", arg.take())),
+                            exp,
+                        );
+                    }
+                    // ---- map_err
+                    {
+                        let calls = Cell::new(0);
+                        let arg = Cell::new(None);
+                        let got: Parsed<T, E2> = recv(r).map_err(|e| {
+                            calls.set(calls.get() + 1);
+                            arg.set(Some(e.clone()));
+                            E2::mk(e.0 + 300)
+                        });
+                        let exp = match r {
+                            Recv::Fall => obs("Fallthrough".into(), 0, "None".into()),
+                            Recv::Ok => obs("Res(Ok(T(11)))".into(), 0, "None".into()),
+                            Recv::Err => obs("Res(Err(E2(321)))".into(), 1, "Some(E(21))".into()),
+                        };
+                        push(
+                            format!("map_err/{:?}", r),
+                            obs(show(&got), calls.get(), format!("{:?}", arg.take())),
+                            exp,
+                        );
+                    }
+                }
+
+                // ---- the same invocation rules with a zero-sized value type (what delimiter parsers return): only the
+                // closure's invocation count is observable there
+                for &r in &recvs {
+                    let zrecv = |r: Recv| -> Parsed<(), E> {
+                        match r {
+                            Recv::Fall => Fallthrough,
+                            Recv::Ok => Res(Ok(())),
+                            Recv::Err => Res(Err(E::mk(21))),
+                        }
+                    };
+                    let want_calls = if r == Recv::Ok { 1 } else { 0 };
+                    let want = |r: Recv| match r {
+                        Recv::Fall => "Fallthrough".to_string(),
+                        Recv::Ok => "Res(Ok(()))".to_string(),
+                        Recv::Err => "Res(Err(E(21)))".to_string(),
+                    };
+                    {
+                        let calls = Cell::new(0);
+                        let got = zrecv(r).and_do(|_| calls.set(calls.get() + 1));
+                        push(format!("zst:and_do/{:?}", r), obs(show(&got), calls.get(), "".into()), obs(want(r), want_calls, "".into()));
+                    }
+                    {
+                        let calls = Cell::new(0);
+                        let got = zrecv(r).and_also(|_| {
+                            calls.set(calls.get() + 1);
+                            Ok(())
+                        });
+                        push(format!("zst:and_also/{:?}", r), obs(show(&got), calls.get(), "".into()), obs(want(r), want_calls, "".into()));
+                    }
+                    {
+                        let calls = Cell::new(0);
+                        let got: Parsed<(), E> = zrecv(r).and_then(|_| {
+                            calls.set(calls.get() + 1);
+                            Ok(())
+                        });
+                        push(format!("zst:and_then/{:?}", r), obs(show(&got), calls.get(), "".into()), obs(want(r), want_calls, "".into()));
+                    }
+                    {
+                        let calls = Cell::new(0);
+                        let got: Parsed<(), E> = zrecv(r).map(|_| {
+                            calls.set(calls.get() + 1);
+                        });
+                        push(format!("zst:map/{:?}", r), obs(show(&got), calls.get(), "".into()), obs(want(r), want_calls, "".into()));
+                    }
+                    {
+                        let calls = Cell::new(0);
+                        let got = zrecv(r).or_parse(|| {
+                            calls.set(calls.get() + 1);
+                            Res(Ok(()))
+                        });
+                        let exp = if r == Recv::Fall { "Res(Ok(()))".to_string() } else { want(r) };
+                        push(
+                            format!("zst:or_parse/{:?}", r),
+                            obs(show(&got), calls.get(), "".into()),
+                            obs(exp, if r == Recv::Fall { 1 } else { 0 }, "".into()),
+                        );
+                    }
+                }
+                for &ok in &[true, false] {
+                    let zres = |ok: bool| -> Result<(), E> {
+                        if ok {
+                            Ok(())
+                        } else {
+                            Err(E::mk(21))
+                        }
+                    };
+                    let want = if ok { "Ok(())" } else { "Err(E(21))" };
+                    {
+                        let calls = Cell::new(0);
+                        let got = ResultExt::and_do(zres(ok), |_: &mut ()| calls.set(calls.get() + 1));
+                        push(
+                            format!("zst:ResultExt::and_do/ok={}", ok),
+                            obs(show_r(&got), calls.get(), "".into()),
+                            obs(want.into(), ok as u32, "".into()),
+                        );
+                    }
+                    {
+                        let calls = Cell::new(0);
+                        let got = ResultExt::and_also(zres(ok), |_: &mut ()| {
+                            calls.set(calls.get() + 1);
+                            Ok(())
+                        });
+                        push(
+                            format!("zst:ResultExt::and_also/ok={}", ok),
+                            obs(show_r(&got), calls.get(), "".into()),
+                            obs(want.into(), ok as u32, "".into()),
+                        );
+                    }
+                }
+
+                // ---- From<Result> and ResultExt on {Ok, Err}
+                for &ok in &[true, false] {
+                    let res = |ok: bool| -> Result<T, E> {
+                        if ok {
+                            Ok(T::mk(11))
+                        } else {
+                            Err(E::mk(21))
+                        }
+                    };
+                    {
+                        let got: Parsed<T, E> = res(ok).into();
+                        let exp = if ok {
+                            "Res(Ok(T(11)))"
+                        } else {
+                            "Res(Err(E(21)))"
+                        };
+                        push(
+                            format!("From<Result>/ok={}", ok),
+                            obs(show(&got), 0, "".into()),
+                            obs(exp.into(), 0, "".into()),
+                        );
+                    }
+                    {
+                        FROM_CALLS.with(|c| c.set(0));
+                        let got: Result<T, E2> = ResultExt::err_into(res(ok));
+                        let calls = FROM_CALLS.with(|c| c.get());
+                        let exp = if ok {
+                            obs("Ok(T(11))".into(), 0, "".into())
+                        } else {
+                            obs("Err(E2(1021))".into(), 1, "".into())
+                        };
+                        push(
+                            format!("ResultExt::err_into/ok={}", ok),
+                            obs(show_r(&got), calls, "".into()),
+                            exp,
+                        );
+                    }
+                    for &cont_ok in &[true, false] {
+                        for &mutate in &[true, false] {
+                            let calls = Cell::new(0);
+                            let arg = Cell::new(None);
+                            let got = ResultExt::and_also(res(ok), |t: &mut T| {
+                                calls.set(calls.get() + 1);
+                                arg.set(Some(t.clone()));
+                                if mutate {
+                                    t.0 += 500;
+                                }
+                                if cont_ok {
+                                    Ok(())
+                                } else {
+                                    Err(E::mk(24))
+                                }
+                            });
+                            let exp = if ok {
+                                obs(
+                                    match (cont_ok, mutate) {
+                                        (true, true) => "Ok(T(511))".into(),
+                                        (true, false) => "Ok(T(11))".into(),
+                                        (false, _) => "Err(E(24))".into(),
+                                    },
+                                    1,
+                                    "Some(T(11))".into(),
+                                )
+                            } else {
+                                obs("Err(E(21))".into(), 0, "None".into())
+                            };
+                            push(
+                                format!(
+                                    "ResultExt::and_also/ok={}/cont_ok={}/mutate={}",
+                                    ok, cont_ok, mutate
+                                ),
+                                obs(show_r(&got), calls.get(), format!("{:?}", arg.take())),
+                                exp,
+                            );
+                        }
+                    }
+                    for &mutate in &[true, false] {
+                        let calls = Cell::new(0);
+                        let arg = Cell::new(None);
+                        let got = ResultExt::and_do(res(ok), |t: &mut T| {
+                            calls.set(calls.get() + 1);
+                            arg.set(Some(t.clone()));
+                            if mutate {
+                                t.0 += 500;
+                            }
+                        });
+                        let exp = if ok {
+                            obs(
+                                if mutate {
+                                    "Ok(T(511))".into()
+                                } else {
+                                    "Ok(T(11))".into()
+                                },
+                                1,
+                                "Some(T(11))".into(),
+                            )
+                        } else {
+                            obs("Err(E(21))".into(), 0, "None".into())
+                        };
+                        push(
+                            format!("ResultExt::and_do/ok={}/mutate={}", ok, mutate),
+                            obs(show_r(&got), calls.get(), format!("{:?}", arg.take())),
+                            exp,
+                        );
+                    }
+                }
+                out
             }
         }
-        for &mutate in &[true, false] {
-            let calls = Cell::new(0);
-            let arg = Cell::new(None);
-            let got = ResultExt::and_do(res(ok), |t: &mut T| {
-                calls.set(calls.get() + 1);
-                arg.set(Some(*t));
-                if mutate {
-                    t.0 += 500;
-                }
-            });
-            let exp = if ok {
-                obs(
-                    if mutate {
-                        "Ok(T(511))".into()
-                    } else {
-                        "Ok(T(11))".into()
-                    },
-                    1,
-                    "Some(T(11))".into(),
-                )
-            } else {
-                obs("Err(E(21))".into(), 0, "None".into())
-            };
-            push(
-                format!("ResultExt::and_do/ok={}/mutate={}", ok, mutate),
-                obs(show_r(&got), calls.get(), format!("{:?}", arg.get())),
-                exp,
-            );
-        }
-    }
-    out
+    };
+}
+
+shape!(plain, "", ());
+shape!(odd, "shape=u8+u16:", (u8, u16));
+shape!(big136, "shape=[u64;16]:", [u64; 16]);
+shape!(big328, "shape=[u64;40]:", [u64; 40]);
+shape!(heap, "shape=String:", String);
+shape!(boxed, "shape=Box:", Box<u8>);
+
+fn cells() -> Vec<Cell15> {
+    let mut v = plain::cells();
+    v.extend(odd::cells());
+    v.extend(big136::cells());
+    v.extend(big328::cells());
+    v.extend(heap::cells());
+    v.extend(boxed::cells());
+    v
+}
+
+fn shape_sizes() -> Vec<(&'static str, usize, usize)> {
+    vec![
+        ("unit", plain::sizes().0, plain::sizes().1),
+        ("u8+u16", odd::sizes().0, odd::sizes().1),
+        ("[u64;16]", big136::sizes().0, big136::sizes().1),
+        ("[u64;40]", big328::sizes().0, big328::sizes().1),
+        ("String", heap::sizes().0, heap::sizes().1),
+        ("Box", boxed::sizes().0, boxed::sizes().1),
+    ]
 }
 
 /// A composed grammar, evaluated for every token sequence up to a small length against a direct
@@ -661,6 +752,15 @@ impl Monitor for C15 {
         // case 0: the complete cell table; case k>0: all token strings of length k-1 over {a,b,c,d,e,z}
         if idx == 0 {
             let cs = crate::work::sut(cells);
+            for (name, parsed, parsed_unit_value) in shape_sizes() {
+                rep.extra.insert(
+                    format!("shape:{}", name),
+                    J::obj()
+                        .set("size_of_Parsed<T,E>", J::u(parsed))
+                        .set("size_of_Parsed<(),E>", J::u(parsed_unit_value)),
+                );
+                rep.inc("shapes");
+            }
             for c in &cs {
                 rep.inc("cells");
                 rep.nontrivial(H::new().b(c.name.as_bytes()).get());
